@@ -10,7 +10,7 @@ import (
 	"verif/sim"
 )
 
-var allStrategies = []string{"pp", "prepare", "commit", "vc", "nv", "nv", "replay", "support", "support"}
+var allStrategies = []string{"pp", "prepare", "commit", "vc", "nv", "nv", "replay", "support", "support", "liftall", "follow", "votes"}
 
 // presets: parameter vectors of NEW_VIEW assemblies that are dangerous if some check is missing
 var nvPresets = [][]int{
@@ -126,6 +126,9 @@ func drawByz(t *rapid.T, w *sim.World, o simOpts) *sim.ByzSpec {
 		p = append([]int{}, rapid.SampledFrom(nvPresets).Draw(t, "preset")...)
 	}
 	spec := &sim.ByzSpec{Strat: strat, As: as, To: to, H: h, V: v, P: p}
+	if strat == "nv" {
+		spec.Tailor = rapid.IntRange(0, 4).Draw(t, "tailor") == 0
+	}
 	// now and then everything is signed for ANOTHER instance id (cross-chain replay), preferably for a future height (cache path)
 	foreignEvery := 12
 	if o.Focus == "C03" || o.Focus == "C08" || o.Focus == "C17" || o.Focus == "C07" {
